@@ -85,7 +85,7 @@ def snapshots(names, inos, mtimes, kinds=(False, True)):
                     for mm in itertools.product(mtimes, repeat=k):
                         t = dict(root)
                         for n, i, kd, m in zip(sub, ii, kk, mm):
-                            t[ROOT + "/" + n] = (i, 1, m, 0, kd)
+                            t[ROOT + "/" + n] = (i, 1, m[0], m[1], kd)   # m = (mtime, size): size may change under an unchanged mtime
                         out.append(t)
     return out
 
@@ -96,11 +96,16 @@ def main():
         snap = {k: tuple(v) for k, v in REPLAY["snap"].items()}
         pr = check_pair(ref, snap, REPLAY.get("ignore_device", False), REPLAY.get("via_sub", False))
         replay_result(bool(pr), pr)
-    bat = Battery({"names": 2 if TIER == "quick" else 3, "inodes": 3, "mtimes": 2, "kinds": 2, "pairs": "all (quick) / all 2-name + 60000 random 3-name (thorough)"})
-    snaps = snapshots(["a", "b"], [1, 2, 3], [0, 1])
+    bat = Battery({"names": 2 if TIER == "quick" else 3, "inodes": 3, "(mtime,size)": 3, "kinds": 2, "pairs": "16000 random of 64009 (quick) / all 2-name + 60000 random 3-name (thorough)"})
+    MS = [(0, 0), (1, 0), (0, 1)]
+    snaps = snapshots(["a", "b"], [1, 2, 3], MS)
     pairs = itertools.product(snaps, snaps)
+    if TIER != "thorough":
+        allp = list(pairs)
+        rng.shuffle(allp)
+        pairs = allp[:16000]
     if TIER == "thorough":
-        big = snapshots(["a", "b", "ab"], [1, 2, 3], [0, 1])
+        big = snapshots(["a", "b", "ab"], [1, 2, 3], MS)
         pairs = itertools.chain(pairs, ((rng.choice(big), rng.choice(big)) for _ in range(60000)))
     n = 0
     for ref, snap in pairs:
